@@ -47,6 +47,7 @@ func vhEP(rcvBuf, sndBuf int) *vhConn {
 	e.id = stack.TransportEndpointID{LocalPort: 80, LocalAddress: vhLocal, RemotePort: 1234, RemoteAddress: vhRemote}
 	e.route = stack.VHRoute(nic, net, header.IPv4ProtocolNumber, vhLocal, vhRemote, nil)
 	e.keepalive.timer.init(&e.keepalive.waker)
+	e.workMu.Init()
 	e.segmentQueue.setLimit(2 * rcvBuf)
 	return &vhConn{e: e, net: net, nic: nic, st: s}
 }
@@ -129,4 +130,13 @@ func vhDecode(p stack.VHPacket) vhTCPPkt {
 	d.opts = h[20:]
 	d.payload = p.Payload
 	return d
+}
+
+// vhPick is vnChoice unless the obligation fixes the choice through a spec parameter (used
+// to split one lemma into parallel obligations).
+func vhPick(name string, n int) int {
+	if k := vparam(name, -1); k >= 0 {
+		return k
+	}
+	return vnChoice(name, n)
 }
